@@ -200,3 +200,13 @@ Example C08_conf_long_line_witness :
 message_format=" ++ repeat x4d 1008 ++ [NL]) in
   len (message_format g) = 1008 /\ conf_ok C [] g = false /\ load C (defaults C) (conf_print C [] g) <> g.
 Proof. vm_compute. split; [reflexivity|]. split; [reflexivity|discriminate]. Qed.
+(** the same exclusion in the continuation form: a value holding whitespace+';' (so it is printed on an indented continuation row when
+    action-conf.c has that form) of 1021 bytes, read from a row that fits ("\t" + value + newline = 1023 bytes), does not fit behind the
+    four-space indent of the listing; [conf_ok] ([row_fits], second form) excludes it, and the round trip indeed fails *)
+Example C08_conf_long_continuation_witness :
+  let g := load C (defaults C) (bytes "[snoopy]
+filter_chain = x
+" ++ [TAB] ++ bytes "a ;" ++ repeat x4d 1018 ++ [NL]) in
+  len (filter_chain g) = 1021 /\ has_inline (ini_inline_comment C) false (filter_chain g) = true
+  /\ conf_ok C [] g = false /\ load C (defaults C) (conf_print C [] g) <> g.
+Proof. vm_compute. split; [reflexivity|]. split; [reflexivity|]. split; [reflexivity|discriminate]. Qed.
